@@ -28,8 +28,8 @@ ASSUMPTIONS = ['items of one key are mutually comparable through __lt__ (as desi
                'equal keys under == / hash (1, 1.0, True) are one key, as for any dict',
                'trusted base: the sorted-list model (sorted(reverse=True)[:k]) and itertools']
 EXHAUSTIVE = {'quick': False, 'thorough': False}
-MINIMA = {'quick': {'heap_read': 2000, 'heap_push': 10000, 'search_reads': 20, 'distinct_nontrivial': 200},
-          'thorough': {'heap_read': 100000, 'heap_push': 500000, 'search_reads': 100, 'distinct_nontrivial': 5000}}
+MINIMA = {'quick': {'design_reuse_histories': 300, 'heap_read': 2000, 'heap_push': 10000, 'search_reads': 20, 'distinct_nontrivial': 200},
+          'thorough': {'design_reuse_histories': 3000, 'heap_read': 100000, 'heap_push': 500000, 'search_reads': 100, 'distinct_nontrivial': 5000}}
 
 ENUM_LEN = {'quick': 5, 'thorough': 7}
 N_ENUM_CHUNKS = {'quick': 16, 'thorough': 64}
@@ -172,6 +172,33 @@ def sort_key(item):
   return item.k if isinstance(item, Lt) else item
 
 
+def run_design_reuse(r, violations, counters):
+  """The same TBRMMDesign objects are pushed into one container, re-scored, and pushed into a second one."""
+  dm = bootstrap.mm('tbrmmdesign')
+  hd = bootstrap.mm('heapdict').HeapDict
+  n = r.randrange(3, 9)
+  designs = [dm.TBRMMDesign(score=float(r.randrange(0, 50)), treatment_geos={'t%d' % i}, control_geos={'c%d' % i}) for i in range(n)]
+  for rnd in range(2):
+    k = r.choice([1, 2, 3])
+    h = hd(k)
+    shadow = {}
+    order = list(designs)
+    r.shuffle(order)
+    for d in order:
+      h.push('q', d)
+      shadow.setdefault('q', []).append(d)
+    res = h.get_result()
+    want = sorted((d.score for d in designs), reverse=True)[:k]
+    got = [d.score for d in res.get('q', [])]
+    if got != want:
+      violations.append({'clause': 'container:design-reuse', 'mech': 'heap-design-reuse',
+                         'detail': 'round %d: designs with scores %r pushed into a fresh container (k=%d) give %r, the k largest are %r' % (
+                             rnd, [d.score for d in order], k, got, want)})
+    for d in designs:                    # re-score the same objects for the next container
+      d.score = float(r.randrange(0, 50))
+  counters['design_reuse_histories'] += 1
+
+
 def run_random(spec):
   import collections  # pylint: disable=g-import-not-at-top
   r, _ = util.rngs(PROP, spec['seed'], spec['idx'])
@@ -204,6 +231,8 @@ def run_random(spec):
                   'first_pushes': [[str(a), str(b)] for a, b in pushes[:12]]}
     if len(violations) > 20:
       break
+  for _ in range(10):
+    run_design_reuse(r, violations, counters)
   return {'nontrivial': False, 'nontrivial_fps': sorted(set(fps)), 'fp': 'rand-%d' % spec['idx'],
           'classes': ['random'], 'counters': dict(counters), 'violations': violations[:20],
           'sample': sample}
